@@ -80,6 +80,9 @@ def _traverse_ast(node: ast.AST, skip_try: bool = True) -> Iterator[ast.AST]:
                 todo.extend(h.body)
             todo.extend(node.orelse)
             todo.extend(node.finalbody)
+        elif isinstance(node, (ast.FunctionDef, ast.AsyncFunctionDef)):
+            # the body of a nested function is not executed when it is defined
+            yield node
         else:
             todo.extend(ast.iter_child_nodes(node))
             yield node
@@ -94,6 +97,9 @@ def _traverse_astroid(node: astroid.NodeNG, skip_try: bool = True) -> Iterator[a
                 todo.extend(h.body)
             todo.extend(node.orelse)
             todo.extend(node.finalbody)
+        elif isinstance(node, astroid.FunctionDef):
+            # the body of a nested function is not executed when it is defined
+            yield node
         else:
             todo.extend(node.get_children())
             yield node
